@@ -126,21 +126,22 @@ Proof.
   { intro i. cbn [solo next]. unfold add. rewrite HM. cbn [solo next]. rewrite HC. reflexivity. }
   assert (scan : forall i, exists k, solo true cfg q 0 k (true, [p], (LScanX, i)) = (true, [q; p], (LHeld, i))).
   { intro i. destruct (isEx cfg p) eqn:X.
-    - exists 4. cbn [solo next filter]. rewrite X. cbn [solo next filter pick length nth_error Nat.modulo Nat.divmod fst snd Nat.sub].
-      rewrite IR. apply tail.
-    - exists 3. cbn [solo next filter]. rewrite X. apply tail. }
+    - exists 4.
+      repeat (cbn [solo next filter pick length nth_error Nat.modulo Nat.divmod fst snd Nat.sub]; rewrite ?X, ?IR).
+      apply tail.
+    - exists 3. repeat (cbn [solo next filter]; rewrite ?X). apply tail. }
   destruct (kind_of cfg q) eqn:K.
   - destruct (scan (tries s q)) as [k Hk]. exists (2 + k). cbv zeta. unfold run.
     destruct (run_solo true cfg q 0 (2 + k) s) as (R1 & R2 & R3 & _ & R5).
     rewrite D, F, Lq in *. cbn [solo next Nat.add] in R1, R2, R3. rewrite K in R1, R2, R3.
     cbn [solo next] in R1, R2, R3. rewrite Hk in R1, R2, R3. cbn [fst snd] in R2, R3.
-    rewrite R3, R2, (R5 p (not_eq_sym Hne)). auto.
+    split; [exact R3 | split; [exact (eq_trans (R5 p (not_eq_sym Hne)) Lp) | exact R2]].
   - destruct (scan (tries s q)) as [k Hk]. exists (2 + k). cbv zeta. unfold run.
     destruct (run_solo true cfg q 0 (2 + k) s) as (R1 & R2 & R3 & _ & R5).
     rewrite D, F, Lq in *. cbn [solo next Nat.add] in R1, R2, R3. rewrite K in R1, R2, R3.
     cbn [solo next only_root] in R1, R2, R3. rewrite IR in R1, R2, R3.
     rewrite Hk in R1, R2, R3. cbn [fst snd] in R2, R3.
-    rewrite R3, R2, (R5 p (not_eq_sym Hne)). auto.
+    split; [exact R3 | split; [exact (eq_trans (R5 p (not_eq_sym Hne)) Lp) | exact R2]].
 Qed.
 
 End Live.
